@@ -79,6 +79,8 @@ MUTANTS = [
      "                i, order = int(name[2]), int(name[-1])"),
     ("m_c13_twodigit_fcfs", "C13", C, "            order = next(filter(lambda i: available[i] is True, range(len(available))))\n            orders[i] = order\n\n        return self.__make_dot_bracket(regions, orders)",
      "            order = next(filter(lambda i: available[i] is True, range(len(available))))\n            orders[i] = order if i < 10 else 0\n\n        return self.__make_dot_bracket(regions, orders)"),
+    ("m_c13_fcfs_10levels", "C13", C, 'available = [True for _ in range(len("([{<" + string.ascii_uppercase))]',
+     "available = [True for _ in range(10)]"),
     ("m_c02_letters", "C02", C, '"".join(p) for p in zip(string.ascii_uppercase, string.ascii_lowercase)',
      '"".join(p) for p in zip(string.ascii_uppercase[1:], string.ascii_lowercase[1:])'),
     ("m_c14_coarse_cache", "C14", A,
